@@ -346,7 +346,7 @@ def gen_multiclk(seed, did):
     return L, ["multiclk"]
 
 
-LONG_HZ = [300000000, 333300000, 350000000, 700000000, 133333333, 266000000, 77000000]
+LONG_HZ = [300000000, 333300000, 350000000, 700000000, 266000000, 77000000, 433000000]   # periods not a whole number of ps; frequencies whose rational times wrap uint64 in the recorder (C20 known finding recorder-rational-uint64-overflow, e.g. 133333333 Hz) are left out
 
 
 def gen_longrun(seed, did, tier):
